@@ -212,3 +212,10 @@ func histSample(res *HistResult) map[string]any {
 	}
 	return s
 }
+
+func modelMergeVer(ts uint64, val []byte) model.Ver {
+	return model.Ver{Ts: ts, Raw: append([]byte{}, val...), Merge: true}
+}
+
+func installShapeHook(sr *shapeRec) { sched.Install(sched.Config{OnEv: sr.onEv}) }
+func uninstallHooks()               { sched.Uninstall() }
